@@ -1,7 +1,7 @@
 (* C16 - Variable assignment follows Sass scoping.
    Property theorems only; proofs live in Proofs/C16.v. *)
 From Coq Require Import List ZArith Bool.
-From RV Require Import Spec.SassFlow Model.EvScope Spec.SassScope Run.C16 Proofs.C16.
+From RV Require Import Spec.SassFlow Model.EvScope Spec.SassScope Run.C16 Proofs.C16 Proofs.C16b.
 Import ListNotations.
 Local Open Scope Z_scope.
 
@@ -27,6 +27,15 @@ Theorem C16_main_partial : forall p,
   hard_only_list p = true -> known_class p = 0 -> run_prog p = fst (spec_run p).
 Proof. exact main_partial. Qed.
 Print Assumptions C16_main_partial.
+
+(* the same for every program without @each: @if/@else is included (in the reference an @if branch has its own
+   scope; without a known-class event it stays empty, so rsass's scopes are the reference scopes minus those).
+   Still partial: programs with @each (their loop scope is merged into the enclosing one by rsass, which needs an
+   overlay relation between frames and a proof that the shadowed entry below the loop scope is untouched) *)
+Theorem C16_main_partial_if : forall p,
+  no_each_list p = true -> known_class p = 0 -> run_prog p = fst (spec_run p).
+Proof. exact main_partial_if. Qed.
+Print Assumptions C16_main_partial_if.
 
 (* --- the other clauses, for ALL states / programs (so also inside the known classes) --- *)
 
